@@ -195,10 +195,24 @@ def run(ctx):
     ctx.notes["scenarios_random"] = nr
     ctx.notes["scenarios_from_model"] = len(scens) - nr - nl - ncut
     sc.validate(ctx, scens, PREFIXES)
+    # data drops: the source numbers a block later than the samples held would suggest (Lancero and ROACH after lost data);
+    # gaps of every size around the record length and the retained history, with an edge pending at the block end
+    tp = ctx.path("emdrop.ndjson")
+    rc, out = vlib.go_test(ctx, "", sc.HARNESS, "TestVerifEMDrop$", env={"VERIF_OUT": tp}, timeout=1800)
+    if rc != 0:
+        raise vlib.MachineryError("edge-multi data-drop driver failed:\n" + out[-3000:])
+    dviols, _ = vlib.validate_trace(ctx, "StreamTrace", "StreamTrace.cfg", tp, timeout=900)
+    dev = vlib.read_ndjson(tp)
+    ctx.notes["runs_with_data_drops"] = len(dev)
+    for v in dviols:
+        e = dev[v["line"] - 1]
+        vlib.report_violation(ctx, {"predicate": v["predicate"], "event": "EMDrop", "where": (e["panic"] or "").split(":")[0]},
+                              {"emdrop": {k: e[k] for k in ("npre", "nsamp", "mode", "zero", "drops", "panic")}})
     return vlib.finish(ctx, LEVEL, RULE,
                        ["the zero-threshold refinement is a floating-point fit: an oracle (shift -1/0/+1) in the model, the real function in the replayed executions",
                         "model signals are staircases/ramps of +-Threshold; seeded signals are ramps, steps and decaying pulses of random height",
-                        "one-block run and partitioned run are compared after the same total stream plus 3 records of quiet padding"])
+                        "one-block run and partitioned run are compared after the same total stream plus 3 records of quiet padding",
+                        "streams with data drops (frame numbers that jump between blocks) are checked for crash-freedom only: what records such a stream should yield is not stated by the property"])
 
 
 def replay(ctx, path):
